@@ -2,6 +2,7 @@ package sim
 
 import (
 	"bufio"
+	"bytes"
 	"crypto/sha256"
 	"encoding/hex"
 	"encoding/json"
@@ -10,6 +11,7 @@ import (
 	"hash"
 	"hash/fnv"
 	"os"
+	"os/exec"
 	"runtime"
 	"sort"
 	"strings"
@@ -189,6 +191,68 @@ type Request struct {
 	ID   int      `json:"id"`
 	Tape []uint64 `json:"tape"`
 	Log  bool     `json:"log"`
+	// search-mode run, for -isolate children
+	Search bool   `json:"search,omitempty"`
+	Seed   uint64 `json:"seed,omitempty"`
+	Run    uint64 `json:"run,omitempty"`
+}
+
+// runIsolated executes one request in a fresh child process (same binary, -child) so
+// that nothing a run leaves behind in package-level state can reach the next run: the
+// history a run sees is exactly the one its tape describes.
+func runIsolated(req *Request) (*Result, error) {
+	b, _ := json.Marshal(req)
+	cmd := exec.Command(os.Args[0], append(childArgs(), "-child", "-procs", fmt.Sprint(runtime.GOMAXPROCS(0)))...)
+	cmd.Stdin = bytes.NewReader(append(b, '\n'))
+	cmd.Stderr = os.Stderr
+	out, err := cmd.Output()
+	if err != nil {
+		return nil, fmt.Errorf("child process: %v", err)
+	}
+	for _, line := range strings.Split(string(out), "\n") {
+		if strings.HasPrefix(line, "END ") {
+			rest := line[4:]
+			sp := strings.IndexByte(rest, ' ')
+			var res Result
+			if err := json.Unmarshal([]byte(rest[sp+1:]), &res); err != nil {
+				return nil, err
+			}
+			return &res, nil
+		}
+	}
+	return nil, fmt.Errorf("child process printed no result")
+}
+
+// childArgs keeps the arguments that precede the worker's own flags (e.g. the
+// -test.* flags and "--" of a test binary).
+func childArgs() []string {
+	for i, a := range os.Args[1:] {
+		if a == "--" {
+			return append([]string{}, os.Args[1:i+2]...)
+		}
+	}
+	return nil
+}
+
+func execute(e Engine, req *Request) *Result {
+	var src *Src
+	if req.Search {
+		src = NewSearch(req.Seed, req.Run)
+	} else {
+		src = NewReplay(req.Tape)
+	}
+	lg := NewLog(req.Log)
+	res := &Result{Run: req.Run}
+	if !req.Search {
+		res.Run = uint64(req.ID)
+	}
+	e.Run(src, lg, res)
+	res.LogHash = lg.Sum()
+	res.Tape = src.Rec
+	if req.Log {
+		res.LogLines = lg.Lines
+	}
+	return res
 }
 
 // Main is the worker entry point. Modes:
@@ -210,6 +274,8 @@ func Main(e Engine, args []string) {
 	serve := fs.Bool("serve", false, "serve replay requests from stdin")
 	procs := fs.Int("procs", 0, "GOMAXPROCS for this worker")
 	samples := fs.Int("samples", 0, "decoded samples to emit")
+	isolate := fs.Bool("isolate", false, "run every simulation in a fresh child process")
+	child := fs.Bool("child", false, "internal: execute one request read from stdin")
 	fs.Parse(args)
 	if *procs > 0 {
 		runtime.GOMAXPROCS(*procs)
@@ -217,6 +283,19 @@ func Main(e Engine, args []string) {
 	out := bufio.NewWriterSize(os.Stdout, 1<<16)
 	defer out.Flush()
 
+	if *child {
+		in := bufio.NewReaderSize(os.Stdin, 1<<20)
+		line, _ := in.ReadString('\n')
+		var req Request
+		if err := json.Unmarshal([]byte(line), &req); err != nil {
+			fmt.Fprintf(os.Stderr, "child: bad request: %v\n", err)
+			os.Exit(2)
+		}
+		res := execute(e, &req)
+		b, _ := json.Marshal(res)
+		fmt.Fprintf(out, "END %d %s\n", req.ID, b)
+		return
+	}
 	if *serve {
 		in := bufio.NewReaderSize(os.Stdin, 1<<20)
 		for {
@@ -230,14 +309,17 @@ func Main(e Engine, args []string) {
 				}
 				fmt.Fprintf(out, "BEGIN %d\n", req.ID)
 				out.Flush()
-				src := NewReplay(req.Tape)
-				lg := NewLog(req.Log)
-				res := &Result{Run: uint64(req.ID)}
-				e.Run(src, lg, res)
-				res.LogHash = lg.Sum()
-				res.Tape = src.Rec
-				if req.Log {
-					res.LogLines = lg.Lines
+				var res *Result
+				if *isolate {
+					r, ierr := runIsolated(&req)
+					if ierr != nil {
+						out.Flush()
+						fmt.Fprintln(os.Stderr, ierr)
+						os.Exit(3) // die like the child did: the driver attributes it to this request
+					}
+					res = r
+				} else {
+					res = execute(e, &req)
 				}
 				b, _ := json.Marshal(res)
 				fmt.Fprintf(out, "END %d %s\n", req.ID, b)
@@ -260,13 +342,19 @@ func Main(e Engine, args []string) {
 		}
 		fmt.Fprintf(out, "BEGIN %d\n", run)
 		out.Flush()
-		src := NewSearch(*seed, run)
-		lg := NewLog(false)
-		res := &Result{Run: run}
-		e.Run(src, lg, res)
-		res.LogHash = lg.Sum()
+		var res *Result
+		if *isolate {
+			r, ierr := runIsolated(&Request{Search: true, Seed: *seed, Run: run})
+			if ierr != nil {
+				out.Flush()
+				fmt.Fprintln(os.Stderr, ierr)
+				os.Exit(3)
+			}
+			res = r
+		} else {
+			res = execute(e, &Request{Search: true, Seed: *seed, Run: run})
+		}
 		if res.Violation != nil {
-			res.Tape = src.Rec
 			res.Decoded = nil
 			b, _ := json.Marshal(res)
 			fmt.Fprintf(out, "FAIL %d %s\n", run, b)
